@@ -225,6 +225,17 @@ func (stream *DataStreamReader) nextValid() (rec *Record, offset uint32, sizeBro
 	return nil, offset2, sizeBroken, nil
 }
 
+// resyncAfterShortRead handles a header whose sizes claim more bytes than the
+// file holds. If a valid record follows, the damaged region is skipped like a
+// CRC failure; if nothing valid follows (a torn tail), the read error is kept.
+func (stream *DataStreamReader) resyncAfterShortRead(readErr error) (rec *Record, offset uint32, sizeBroken uint32, err error) {
+	rec, offset, sizeBroken, err = stream.nextValid()
+	if rec == nil && err == nil {
+		err = readErr
+	}
+	return
+}
+
 func (stream *DataStreamReader) Next() (res *Record, offset uint32, sizeBroken uint32, err error) {
 	wrec := newWriteRecord()
 	if _, err = io.ReadFull(stream.rbuf, wrec.header[:]); err != nil {
@@ -249,11 +260,17 @@ func (stream *DataStreamReader) Next() (res *Record, offset uint32, sizeBroken u
 	wrec.rec.Key = make([]byte, wrec.ksz)
 	if _, err = io.ReadFull(stream.rbuf, wrec.rec.Key); err != nil {
 		logger.Errorf(err.Error())
+		if err == io.EOF || err == io.ErrUnexpectedEOF {
+			return stream.resyncAfterShortRead(err)
+		}
 		return
 	}
 	wrec.rec.Payload.Body = stream.maxBodyBuf[:wrec.vsz]
 	if _, err = io.ReadFull(stream.rbuf, wrec.rec.Payload.Body); err != nil {
 		logger.Errorf(err.Error())
+		if err == io.EOF || err == io.ErrUnexpectedEOF {
+			return stream.resyncAfterShortRead(err)
+		}
 		return
 	}
 	recsizereal, recsize := wrec.rec.Sizes()
